@@ -183,6 +183,9 @@ def _array(np, rnd, info, coords, enc, layout):
         arr = np.asfortranarray(arr)
     elif layout == "T":
         arr = np.ascontiguousarray(arr.transpose(3, 2, 1, 0)).transpose(3, 2, 1, 0)
+    elif layout == "BE":
+        # non-native byte order (what nibabel returns for big-endian files)
+        arr = arr.astype(arr.dtype.newbyteorder(">"))
     elif layout == "slice":
         big = np.zeros((shape[0], shape[1], shape[2], 2 * shape[3] + 1), dtype=arr.dtype)
         big[..., 1::2] = arr
@@ -301,11 +304,13 @@ def run_case(case):
                               "detail": f"{ctx}: {type(exc).__name__}: {str(exc)[:160]}"})
                     break
                 continue
-            layout = rnd.choice(["C", "C", "F", "T", "slice"]) if enc != "jpeg" else \
+            layout = rnd.choice(["C", "C", "F", "T", "slice", "BE"]) if enc != "jpeg" else \
                 rnd.choice(["C", "C", "F"])
             arr = _array(np, rnd, info, coords, enc, layout)
             if not arr.flags["C_CONTIGUOUS"]:
                 obs["noncontiguous_arrays"] += 1
+            if layout == "BE":
+                obs["big_endian_arrays"] = obs.get("big_endian_arrays", 0) + 1
             call_coords = coords
             if rnd.random() < 0.15:
                 call_coords = tuple(np.int64(c) for c in coords)
@@ -320,7 +325,8 @@ def run_case(case):
                           f"{type(exc).__name__}: {str(exc)[:160]}"})
                 break
             obs["write_events"] += 1
-            model[(sc["key"], coords)] = np.array(arr, copy=True)
+            model[(sc["key"], coords)] = np.array(arr, copy=True).astype(
+                arr.dtype.newbyteorder("="))
         # ---- off-grid attempts (before close, so a stored chunk would reach the files)
         for sc in info["scales"]:
             for label, bad in _offgrid(rnd, info, sc):
@@ -431,4 +437,5 @@ def gates(obs, tier):
         "numpy_int_coords": obs.get("numpy_int_coords", 0) > 20,
         "info_revised_mid_history": obs.get("info_revisions", 0) > 20,
         "chunks_beyond_2_20_voxels": obs.get("chunks_over_2_20_voxels", 0) > 0,
+        "big_endian_input_arrays": obs.get("big_endian_arrays", 0) > 50,
     }
